@@ -29,6 +29,9 @@ struct Case {
     procs: Vec<ProcSpec>,
     verbose: Vec<bool>,
     viz: Vec<bool>,
+    /// run k happens with the whole world moved to another absolute location
+    #[serde(default)]
+    relocate: Vec<bool>,
     flags: Vec<String>,
     // edit workload
     edit_kind: String,
@@ -202,6 +205,7 @@ fn add_specials(r: &mut Rng, m: &mut Model, flags: &mut Vec<String>, allow_dup_t
 fn forced_run(env: &mut Env, w: &World, setup: &Setup, cfg: &Cfg, p: ProcSpec, verbose: bool, viz: bool) -> Result<Files, String> {
     let mut c = cfg.clone();
     c.visualize = viz;
+    c.flag_visualize = c.flag_visualize && viz;
     let mut flag = false;
     match setup.entry {
         Entry::Cli => flag = true,
@@ -336,6 +340,7 @@ impl Check for C13 {
         let viz: Vec<bool> = (0..s)
             .map(|k| if viz_mixed { k % 2 == 0 } else { viz_world })
             .collect();
+        let relocate: Vec<bool> = (0..s).map(|k| k > 0 && !edit_case && pr.chance(1, 4)).collect();
         let mut er = r.split("edit");
         let edit_kind = EDIT_KINDS[((i / 2) % EDIT_KINDS.len() as u64) as usize].to_string();
         let extras: BTreeMap<String, String> = BTreeMap::new();
@@ -355,6 +360,7 @@ impl Check for C13 {
             procs,
             verbose,
             viz,
+            relocate,
             flags,
             edit_kind,
             real_bin,
@@ -381,7 +387,22 @@ impl Check for C13 {
         if c.kind == "sched" {
             let mut outs: Vec<Files> = vec![];
             for k in 0..c.procs.len() {
-                match forced_run(env, &w, &c.setup, &c.cfg, c.procs[k].clone(), c.verbose[k], c.viz[k]) {
+                // the same checkout at another absolute location (relative configuration only)
+                let moved = c.relocate.get(k).copied().unwrap_or(false) && c.setup.out_style != crate::world::OutStyle::Absolute;
+                let w_run = if moved {
+                    let new_root = w.root.with_file_name(format!("relocated-{}", k));
+                    let _ = std::fs::remove_dir_all(&new_root);
+                    std::fs::rename(&w.root, &new_root).expect("move world");
+                    co.count("runs_at_another_absolute_location", 1);
+                    World { root: new_root }
+                } else {
+                    w.clone()
+                };
+                let res = forced_run(env, &w_run, &c.setup, &c.cfg, c.procs[k].clone(), c.verbose[k], c.viz[k]);
+                if moved {
+                    std::fs::rename(&w_run.root, &w.root).expect("move world back");
+                }
+                match res {
                     Ok(f) => outs.push(f),
                     Err(e) => {
                         if k == 0 {
@@ -435,6 +456,7 @@ impl Check for C13 {
                     true => {
                         let mut cfg = c.cfg.clone();
                         cfg.visualize = c.viz[0];
+                        cfg.flag_visualize = cfg.flag_visualize && c.viz[0];
                         w.write_config(&c.setup, &cfg);
                         let _ = std::fs::remove_dir_all(w.out_dir(&c.setup));
                         let argv = w.argv(&c.setup, &cfg, true, false);
@@ -541,6 +563,9 @@ impl Check for C13 {
                     d.procs.remove(drop);
                     d.verbose.remove(drop);
                     d.viz.remove(drop);
+                    if drop < d.relocate.len() {
+                        d.relocate.remove(drop);
+                    }
                     out.push(d);
                 }
             }
@@ -558,6 +583,11 @@ impl Check for C13 {
         for k in c.cfg.mappings.keys() {
             let mut d = c.clone();
             d.cfg.mappings.remove(k);
+            out.push(d);
+        }
+        if c.relocate.iter().any(|x| *x) {
+            let mut d = c.clone();
+            d.relocate.iter_mut().for_each(|x| *x = false);
             out.push(d);
         }
         for k in 0..c.procs.len() {
